@@ -305,10 +305,15 @@ func startBackend() *liveBackend {
 func httpGet(url string) (status int, fromBackend bool, err error) {
 	tr := &http.Transport{DisableKeepAlives: true, DisableCompression: true,
 		TLSClientConfig: &tls.Config{InsecureSkipVerify: true}, // #nosec: loopback test client
-		DialContext:     (&net.Dialer{Timeout: 2 * time.Second}).DialContext}
+		DialContext:     (&net.Dialer{Timeout: 5 * time.Second}).DialContext}
 	defer tr.CloseIdleConnections()
-	cl := &http.Client{Transport: tr, Timeout: 10 * time.Second}
-	res, err := cl.Get(url)
+	cl := &http.Client{Transport: tr, Timeout: lab.NoProgress}
+	req, err := http.NewRequest("GET", url, nil)
+	if err != nil {
+		return 0, false, err
+	}
+	req.Header.Set("X-API-Key", VerifAPIKey) // generated custom-auth entries use this key
+	res, err := cl.Do(req)
 	if err != nil {
 		return 0, false, err
 	}
@@ -381,6 +386,10 @@ func runBinary(h *lab.Helios, ls Listeners) Verdict {
 		scheme = "https"
 	}
 	status, fromBackend, err := httpGet(fmt.Sprintf("%s://127.0.0.1:%d/verif", scheme, ls.Proxy))
+	if ne, ok := err.(interface{ Timeout() bool }); ok && ne.Timeout() {
+		// a client-side time budget ran out (loaded machine): one more attempt before judging
+		status, fromBackend, err = httpGet(fmt.Sprintf("%s://127.0.0.1:%d/verif", scheme, ls.Proxy))
+	}
 	if err != nil || !fromBackend {
 		// the listener on the proxy port may belong to an ancillary server of a process that is
 		// about to die with a bind error: give it the chance to report that
